@@ -35,7 +35,7 @@ def enum_trees(depth, lits):
     return out
 
 
-POSITIONS = ["dd", "dw", "db", "resb", "equ", "org"]
+POSITIONS = ["dd", "dw", "db", "resb", "equ", "org", "equ-reuse"]
 
 
 def place(e, pos, k):
@@ -51,6 +51,14 @@ def place(e, pos, k):
         return [("mn", "RESB", [cnt]), ("mn", "DB", [A.num(0xCC)])]
     if pos == "equ":
         return [("equ", "V%d" % k, e), ("equ", "W%d" % k, A.sum_of([("+", ("id", "V%d" % k)), ("+", ("num", 1))])), ("mn", "DD", [A.ident("W%d" % k), A.ident("V%d" % k)])]
+    if pos == "equ-reuse":
+        # an EQU name used inside products/quotients and then used again: the definition must not be disturbed
+        V = "V%d" % k
+        use1 = ("add", ("mul", ("id", V), [("*", ("num", 3))]), [])
+        use2 = ("add", ("mul", ("id", V), [("/", ("num", 2))]), [("+", ("mul", ("num", 1), []))])
+        use3 = ("add", ("mul", ("num", 5), [("*", ("id", V))]), [])
+        return [("equ", V, e), ("mn", "DD", [use1]), ("mn", "DD", [A.ident(V)]), ("mn", "DD", [use2, A.ident(V)]),
+                ("equ", "W%d" % k, ("add", ("mul", ("id", V), [("*", ("num", 2))]), [])), ("mn", "DD", [A.ident(V), A.ident("W%d" % k), use3, A.ident(V)])]
     if pos == "org":
         cnt = ("add", ("mul", ("add", ("mul", ("add", ("mul", e, [("%", ("num", 4096))]), []), []), [("+", ("mul", ("num", 4096), []))]), []), [])
         return [("mn", "ORG", [cnt]), ("label", "here"), ("mn", "DW", [A.ident("here"), A.ident("$")])]
